@@ -74,6 +74,10 @@ pub mod bytes {
         fn copy_to_slice(&mut self, dst: &mut [u8])
             requires old(self).bview().len() >= old(dst)@.len(),
             ensures final(dst)@ == old(self).bview().take(old(dst)@.len() as int), final(self).bview() == old(self).bview().skip(old(dst)@.len() as int);
+        // contiguous buffers only (&[u8], Bytes, Take<Bytes> -- the three types src/tlv.rs implements
+        // ProtoBuf for): the current chunk is everything that remains
+        fn chunk(&self) -> (r: &[u8])
+            ensures r@ == self.bview();
         fn advance(&mut self, cnt: usize)
             requires old(self).bview().len() >= cnt,
             ensures final(self).bview() == old(self).bview().skip(cnt as int);
@@ -88,6 +92,7 @@ pub mod bytes {
         #[verifier::external_body] fn get_u64(&mut self) -> (r: u64) { unimplemented!() }
         #[verifier::external_body] fn copy_to_bytes(&mut self, len: usize) -> (r: Bytes) { unimplemented!() }
         #[verifier::external_body] fn copy_to_slice(&mut self, dst: &mut [u8]) { unimplemented!() }
+        #[verifier::external_body] fn chunk(&self) -> (r: &[u8]) { unimplemented!() }
         #[verifier::external_body] fn advance(&mut self, cnt: usize) { unimplemented!() }
     }
     impl Buf for Bytes {
@@ -100,6 +105,7 @@ pub mod bytes {
         #[verifier::external_body] fn get_u64(&mut self) -> (r: u64) { unimplemented!() }
         #[verifier::external_body] fn copy_to_bytes(&mut self, len: usize) -> (r: Bytes) { unimplemented!() }
         #[verifier::external_body] fn copy_to_slice(&mut self, dst: &mut [u8]) { unimplemented!() }
+        #[verifier::external_body] fn chunk(&self) -> (r: &[u8]) { unimplemented!() }
         #[verifier::external_body] fn advance(&mut self, cnt: usize) { unimplemented!() }
     }
     impl Buf for buf::Take<Bytes> {
@@ -112,6 +118,7 @@ pub mod bytes {
         #[verifier::external_body] fn get_u64(&mut self) -> (r: u64) { unimplemented!() }
         #[verifier::external_body] fn copy_to_bytes(&mut self, len: usize) -> (r: Bytes) { unimplemented!() }
         #[verifier::external_body] fn copy_to_slice(&mut self, dst: &mut [u8]) { unimplemented!() }
+        #[verifier::external_body] fn chunk(&self) -> (r: &[u8]) { unimplemented!() }
         #[verifier::external_body] fn advance(&mut self, cnt: usize) { unimplemented!() }
     }
 }
